@@ -1159,18 +1159,42 @@ static int janet_chan_has_live_reader(JanetChannel *channel) {
     return 0;
 }
 
-static void chan_unlock_args(const Janet *argv, int32_t n) {
-    for (int32_t i = 0; i < n; i++) {
-        int32_t len;
-        const Janet *data;
-        JanetChannel *chan;
-        if (janet_indexed_view(argv[i], &data, &len) && len == 2) {
-            chan = janet_getchannel(data, 0);
-        } else {
-            chan = janet_getchannel(argv, i);
-        }
-        janet_chan_unlock(chan);
+/* Get the channel of a clause of ev/select */
+static JanetChannel *chan_of_clause(const Janet *argv, int32_t i) {
+    int32_t len;
+    const Janet *data;
+    if (janet_indexed_view(argv[i], &data, &len) && len == 2) {
+        return janet_getchannel(data, 0);
     }
+    return janet_getchannel(argv, i);
+}
+
+/* Unlock the channels of all clauses but one */
+static void chan_unlock_args(const Janet *argv, int32_t n, int32_t except) {
+    for (int32_t i = 0; i < n; i++) {
+        if (i == except) continue;
+        janet_chan_unlock(chan_of_clause(argv, i));
+    }
+}
+
+/* Lock the channel of every clause once. The locks are taken in address order rather than
+ * in clause order, otherwise two threads that select over the same channels in different
+ * orders can deadlock. */
+static void chan_lock_args(const Janet *argv, int32_t n) {
+    JanetChannel **chans = janet_smalloc(sizeof(JanetChannel *) * (size_t) n);
+    for (int32_t i = 0; i < n; i++) {
+        JanetChannel *chan = chan_of_clause(argv, i);
+        int32_t j = i;
+        while (j > 0 && (uintptr_t) chans[j - 1] > (uintptr_t) chan) {
+            chans[j] = chans[j - 1];
+            j--;
+        }
+        chans[j] = chan;
+    }
+    for (int32_t i = 0; i < n; i++) {
+        janet_chan_lock(chans[i]);
+    }
+    janet_sfree(chans);
 }
 
 JANET_CORE_FN(cfun_channel_choice,
@@ -1193,35 +1217,35 @@ JANET_CORE_FN(cfun_channel_choice,
         janet_panic("cannot select from channel inside janet_call");
     }
 
+    /* All channels stay locked from the check for immediate completion until
+     * this fiber has been registered as pending on them. */
+    chan_lock_args(argv, argc);
+
     /* Check channels for immediate reads and writes */
     for (int32_t i = 0; i < argc; i++) {
         if (janet_indexed_view(argv[i], &data, &len) && len == 2) {
             /* Write */
             JanetChannel *chan = janet_getchannel(data, 0);
-            janet_chan_lock(chan);
             if (chan->closed) {
-                janet_chan_unlock(chan);
-                chan_unlock_args(argv, i);
+                chan_unlock_args(argv, argc, -1);
                 return make_close_result(chan);
             }
             if (janet_q_count(&chan->items) < chan->limit || janet_chan_has_live_reader(chan)) {
+                chan_unlock_args(argv, argc, i);
                 janet_channel_push_with_lock(chan, data[1], 1);
-                chan_unlock_args(argv, i);
                 return make_write_result(chan);
             }
         } else {
             /* Read */
             JanetChannel *chan = janet_getchannel(argv, i);
-            janet_chan_lock(chan);
             if (chan->closed) {
-                janet_chan_unlock(chan);
-                chan_unlock_args(argv, i);
+                chan_unlock_args(argv, argc, -1);
                 return make_close_result(chan);
             }
             if (chan->items.head != chan->items.tail) {
                 Janet item;
+                chan_unlock_args(argv, argc, i);
                 janet_channel_pop_with_lock(chan, &item, 1);
-                chan_unlock_args(argv, i);
                 return make_read_result(chan, item);
             }
         }
